@@ -78,6 +78,7 @@ func ebpReadObs(data []byte) Val {
 	}
 	o := twice("EBP getters", func() Val { return ebpObs(e) })
 	d := keep("Data() of the decoded EBP", e.Data())
+	keepView("the getters of the decoded EBP", func() string { return valTextFull(ebpObs(e)) }) // must survive the decoy phase
 	dfl := ebpU(e, "DataFieldLength")
 	return VOk(VL(o, VB(d), dfl, VBool(bytes.Equal(snap, data))))
 }
